@@ -15,11 +15,20 @@ Expectation, from the settings row of the source workbook and the convert() argu
    an attribute:: column collides with a built-in root attribute whose own setting is present (id always is).
 Path input is exercised inside check(): the form is written into a private tempfile.mkdtemp() directory under
 several file names (extra dots, spaces, upper case; .md / .xlsx / .csv; str and PathLike) and removed afterwards.
+Real spreadsheet containers (cases C11c-*, also inside check()): the workbook is written as .xlsx / .xlsm (openpyxl) and
+.xls (BIFF8 in OLE2, corpus.c11_wb_to_xls) and handed to convert() as bytes with a file_type, as BytesIO / open file
+without one (type detection), and as str / PathLike path.  The settings sheet of these cases carries layout noise
+that the property allows because it is no setting at all: header-less columns (empty header cell) before, between and
+after the used columns - empty spacers (no cell, formatted-empty cell, empty-string cell) or columns of private
+notes - plus numeric cells for integer values and the settings sheet placed before the survey sheet.  The
+expectation is unchanged: every setting (= cell under a non-empty header) reaches its own place verbatim, places
+without a setting keep their default, whatever the container and whatever lies in header-less columns.
 Not demanded: the place of an attribute::version / attribute::xmlns value when the version / instance_xmlns
 setting itself is absent; root name when both `name` and form_name are given; both default_language sources.
 """
 from __future__ import annotations
 
+import io
 import itertools
 import pathlib
 import random
@@ -236,6 +245,66 @@ def _file_variants(case: Case, n: int):
     return picks
 
 
+# How a real container reaches convert(): (file extension, hand-over).  "+type" passes file_type, the others leave the
+# type to be found out from the path suffix / the content.
+XLSX_DELIVERIES = [("xlsx", "bytes+type"), ("xlsx", "path-str"), ("xlsx", "BytesIO"), ("xlsm", "path-obj"), ("xlsx", "file"),
+                   ("xlsm", "bytes+type"), ("xlsx", "path-obj")]
+XLS_DELIVERIES = [("xls", "bytes+type"), ("xls", "path-obj"), ("xls", "BytesIO"), ("xls", "path-str"), ("xls", "file")]
+EMPTIES = ("absent", "styled", "blank")
+PLANS: dict = {}   # case name -> {"deliveries": [...], "typed": bool, "empties": str}; filled by cases()
+
+
+def _check_containers(case: Case, wb: WB, s: dict, plan: dict) -> list[dict]:
+    """Write the source workbook into real .xlsx/.xlsm/.xls containers and check each conversion against the same
+    expectation `s` (which was read from the cells under non-empty headers only)."""
+    out = []
+    kw = {k: v for k, v in case.kwargs.items() if k != "_source"}
+    typed, empties = plan["typed"], plan["empties"]
+    h = zlib.crc32(case.name.encode("utf-8"))
+    blobs, tmp, opened = {}, None, []
+    try:
+        for i, (ext, mode) in enumerate(plan["deliveries"]):
+            kind = "xls" if ext == "xls" else "xlsx"
+            if kind not in blobs:
+                try:
+                    blobs[kind] = (corpus.c11_wb_to_xls if kind == "xls" else corpus.c11_wb_to_xlsx)(wb, typed, empties)
+                except ValueError:      # not representable in that container (size limits of the writer)
+                    blobs[kind] = None
+            data = blobs[kind]
+            if data is None:
+                continue
+            fallback, file_type = "data", None
+            if mode == "bytes+type":
+                src, file_type = data, f".{ext}"
+            elif mode == "BytesIO":
+                src = io.BytesIO(data)
+            else:
+                if tmp is None:
+                    tmp = tempfile.mkdtemp(prefix="verif-c11-")
+                stem = FILE_STEMS[(h + 3 * i) % len(FILE_STEMS)]
+                p = pathlib.Path(tmp) / f"{stem}.{ext}"
+                p.write_bytes(data)
+                if mode == "file":
+                    src = open(p, "rb")   # noqa: SIM115
+                    opened.append(src)
+                else:
+                    src, fallback = (str(p) if mode == "path-str" else p), stem
+            how = f"{ext} container as {mode}, empty cells {empties}{', numeric cells' if typed else ''}"
+            r2 = corpus.convert_case(Case(case.name, wb=wb, kwargs=kw), _source=src, file_type=file_type)
+            if not r2.ok or r2.xform is None:
+                key = "container-input-crash" if r2.internal_error else "container-input-rejected"
+                out.append(V(key, f"[{how}] accepted as a dict of the same cells but not as a container: "
+                                  f"{type(r2.error).__name__}: {r2.error}"))
+                continue
+            out += check_output(s, kw, r2.xform, fallback, how)
+    finally:
+        for f in opened:
+            f.close()
+        if tmp is not None:
+            shutil.rmtree(tmp, ignore_errors=True)
+    return out
+
+
 def check(case: Case, res: Result, ctx: dict) -> list[dict]:
     wb = corpus.sv_case_wb(case)
     if wb is None:
@@ -273,6 +342,9 @@ def check(case: Case, res: Result, ctx: dict) -> list[dict]:
                 out += check_output(s, kw, r2.xform, stem, f"path {p.name} as {'str' if as_str else 'PathLike'}")
         finally:
             shutil.rmtree(tmp, ignore_errors=True)
+    plan = PLANS.get(case.name)
+    if plan is not None and res.ok:
+        out += _check_containers(case, wb, s, plan)
     seen, uniq = set(), []
     for v in out:
         if v["key"] not in seen:
@@ -311,10 +383,15 @@ VALUES = {
     "default_language": ["French (fr)", "English (en)"],
 }
 ORDER = list(VALUES)
+# private notes kept in header-less columns: no setting, distinct from every setting value (a leak is visible)
+NOTES = ["remember to bump the version", "note_to_self", "v3 draft"]
+# cells of the header-less columns inserted at one place (None = empty cell)
+NOISE_KINDS = [[None], [None, None], [NOTES[0]], [NOTES[1], None], [None, NOTES[2], None]]
 SPELLINGS = {"title": TITLE_KEYS, "id": ID_KEYS}
 
 
-def _case(name, chosen: dict, rnd: random.Random, lang=False, kwargs=None, spelling=None, shuffle=False, both_ids=False):
+def _case(name, chosen: dict, rnd: random.Random, lang=False, kwargs=None, spelling=None, shuffle=False, both_ids=False,
+          noise=None, settings_first=False):
     keys = [k for k in ORDER if k in chosen]
     if shuffle:
         rnd.shuffle(keys)
@@ -336,10 +413,17 @@ def _case(name, chosen: dict, rnd: random.Random, lang=False, kwargs=None, spell
     if "public_key" in chosen and "omit_instanceID" in chosen and chosen["omit_instanceID"] in corpus.SV_YES:
         i = headers.index("omit_instanceID")
         row[i] = "no"
+    # layout noise: header-less columns (header None) inserted at header positions; cell None = empty, text = a note
+    for pos, cells in sorted(noise or [] if headers else [], key=lambda pc: -pc[0]):
+        pos = min(pos, len(headers))
+        headers[pos:pos] = [None] * len(cells)
+        row[pos:pos] = list(cells)
     wb = WB()
     sv = SURVEY_LANG if (lang or "default_language" in chosen or (kwargs or {}).get("default_language")) else SURVEY_PLAIN
+    if headers and settings_first:
+        wb["settings"] = (headers, [row])
     wb["survey"] = (list(sv[0]), [list(r) for r in sv[1]])
-    if headers:
+    if headers and not settings_first:
         wb["settings"] = (headers, [row])
     return Case(name, wb=wb, kwargs=dict(kwargs or {}), origin="C11")
 
@@ -348,6 +432,7 @@ def cases(tier: str, seed: int) -> list[Case]:
     rnd = random.Random(seed * 15485863 + 11)
     out: list[Case] = []
     n = [0]
+    PLANS.clear()
 
     def add(chosen, path=False, **kw):
         n[0] += 1
@@ -405,4 +490,55 @@ def cases(tier: str, seed: int) -> list[Case]:
             kwargs["default_language"] = rnd.choice(VALUES["default_language"])
         add(chosen, path=(rnd.random() < 0.35), spelling={k: rnd.choice(SPELLINGS[k]) for k in SPELLINGS},
             shuffle=True, kwargs=kwargs, lang=rnd.random() < 0.3, both_ids=rnd.random() < 0.05)
+    # 5. real .xlsx/.xlsm/.xls containers, settings sheet with header-less columns (own random stream: the cases above
+    #    are the same as before).  Every case is converted from one xlsx-family and one xls container (thorough: all
+    #    hand-over modes); hand-over mode, storage of the empty cells, numeric cells and sheet order rotate.
+    rc = random.Random(seed * 32452843 + 1111)
+    nc = [0]
+
+    def addc(chosen, noise=None, **kw):
+        nc[0] += 1
+        name = f"C11c-{nc[0]}"
+        h = zlib.crc32(name.encode("utf-8"))
+        out.append(_case(name, chosen, rc, noise=noise, settings_first=((h >> 12) % 4 == 0), **kw))
+        if tier == "thorough" and nc[0] % 8 == 1:
+            deliveries = [*XLSX_DELIVERIES, *XLS_DELIVERIES]
+        else:
+            deliveries = [XLSX_DELIVERIES[h % len(XLSX_DELIVERIES)], XLS_DELIVERIES[(h >> 3) % len(XLS_DELIVERIES)]]
+        PLANS[name] = {"deliveries": deliveries, "typed": bool((h >> 7) & 1), "empties": EMPTIES[(h >> 9) % 3]}
+
+    base_keys = ["title", "id", "version", "name", "instance_name", "submission_url", "public_key", "auto_send", "style",
+                 "attribute::xyz"]
+    base = {k: VALUES[k][-1] for k in base_keys}      # version '7' and attribute::xyz '1234' may become numeric cells
+    addc(everything)
+    addc(base)
+    # 5a. one noise place, every position (before the first, between any two, after the last column) x every kind
+    for pos in range(len(base_keys) + 1):
+        for cells in NOISE_KINDS:
+            addc(base, noise=[(pos, cells)])
+    # 5b. two noise places in a five-column sheet, every pair of positions
+    five = {k: VALUES[k][0] for k in ("title", "id", "version", "submission_url", "style")}
+    for p1, p2 in itertools.combinations(range(len(five) + 1), 2):
+        for c1, c2 in (([None], [NOTES[0]]), ([NOTES[1]], [None, None]), ([NOTES[2]], [NOTES[0]]))[:2 if tier == "quick" else 3]:
+            addc(five, noise=[(p1, c1), (p2, c2)])
+    # 5c. a single setting with a spacer / a note column before or after it: the place of every *absent* setting must
+    #     keep its default, the present one must not move
+    for k in ORDER:
+        for pos in (0, 1):
+            for cells in ([None], [NOTES[(pos + len(k)) % len(NOTES)]]):
+                if tier == "quick" and pos == 1 and cells == [None]:
+                    continue            # only trailing emptiness: left to the thorough tier
+                addc({k: VALUES[k][0]}, noise=[(pos, cells)])
+    # 5d. random subsets / values / spellings / column orders with random noise
+    for i in range({"quick": 50, "thorough": 1500}[tier]):
+        keys = [k for k in ORDER if rc.random() < rc.choice([0.15, 0.35, 0.6])] or [rc.choice(ORDER)]
+        chosen = {k: rc.choice(VALUES[k]) for k in keys}
+        kwargs = {}
+        if rc.random() < 0.15:
+            kwargs["form_name"] = rc.choice(["argroot", "Root_2"])
+        if rc.random() < 0.1:
+            kwargs["default_language"] = rc.choice(VALUES["default_language"])
+        noise = [(rc.randrange(len(keys) + 2), rc.choice(NOISE_KINDS)) for _ in range(rc.choice([0, 1, 1, 2, 3]))]
+        addc(chosen, noise=noise, spelling={k: rc.choice(SPELLINGS[k]) for k in SPELLINGS}, shuffle=True, kwargs=kwargs,
+             lang=rc.random() < 0.3, both_ids=rc.random() < 0.05)
     return out
